@@ -35,6 +35,8 @@ func init() {
 		"closest", "query", "closest", "target", "list", "ref", "list", "query", "toprank", "query", "toprank", "target", "toprank", "ref", "toprank-csv", "query", "toprank-csv", "target")
 	add("empty-file", false, "toma", "sam", "topa", "sam", "samvar", "sam", "topa", "ref", "samvar", "ref", "variants", "msa", "variants-stdin", "msa", "snps", "ref", "snps", "query",
 		"closest", "query", "closest", "target", "closestn", "query", "closestn", "target", "list", "ref", "list", "query", "toprank", "query", "toprank", "target", "toprank", "ref")
+	add("header-only-file", false, "topa", "ref", "samvar", "ref", "variants", "msa", "variants-stdin", "msa", "snps", "ref", "snps", "query",
+		"closest", "query", "closest", "target", "closestn", "query", "closestn", "target", "list", "ref", "list", "query", "toprank", "query", "toprank", "target", "toprank", "ref")
 	add("headerless-sam", false, "toma", "sam", "topa", "sam", "samvar", "sam")
 	for _, k := range []string{"ref-width-shorter", "ref-width-longer"} {
 		add(k, false, "snps", "ref", "list", "ref", "toprank", "ref")
@@ -269,6 +271,9 @@ func runC18(c *fw.Ctx, idx int) fw.Result {
 		missing = sp.file
 	case "empty-file":
 		files[sp.file] = ""
+	case "header-only-file":
+		// a FASTA file with a header line and no sequence at all
+		files[sp.file] = []string{">only_a_header\n", ">only_a_header", ">only_a_header some description\n\n"}[idx%3]
 	case "headerless-sam":
 		var sb strings.Builder
 		for _, l := range strings.Split(files["sam"], "\n") {
